@@ -117,6 +117,12 @@ func TestGovcBoundedPacers(t *testing.T) {
 			addLin(LinearPacer{StartAt: Rate{Freq: start, Per: time.Second}, Slope: slope})
 		}
 	}
+	// start rates given over other units than one second (the schedule must not depend on the unit)
+	for _, st := range []Rate{{Freq: 10, Per: 100 * time.Millisecond}, {Freq: 6000, Per: time.Minute}, {Freq: 3, Per: 7 * time.Millisecond}, {Freq: 360000, Per: time.Hour}} {
+		for _, slope := range []float64{0, 5, 10, -0.5} {
+			addLin(LinearPacer{StartAt: st, Slope: slope})
+		}
+	}
 	// slow, deep sines (rate changes a lot within one hit interval)
 	for _, o := range []float64{MeanUp, Peak, MeanDown, Trough, 4.0} {
 		addSine(SinePacer{Period: time.Second, Mean: Rate{Freq: 1, Per: time.Second}, Amp: Rate{Freq: 9, Per: 10 * time.Second}, StartAt: o})
